@@ -1,18 +1,22 @@
-(* Model of the request path of udp/client.Conn for requests received from the
-   peer: Process (checkMyMessageID) -> handleReq (per-MID mutex, response cache
-   lookup, application handler, processResponse, response cache store) ->
-   ProcessReceivedMessageWithHandler (write the reply if modified), and of the
-   housekeeping sweep of the response cache.  One [step] is one critical section
-   of the per-message-ID mutex, so a history is also a schedule at that
-   granularity.  Time: each cache entry carries the milliseconds of validity it
-   has left; [Age d] lets d ms pass. *)
+(* Model of the request path of udp/client.Conn for messages received from the
+   peer: Process (checkMyMessageID, request monitor, handleSpecialMessages) ->
+   handleReq (per-MID mutex, response cache lookup, application handler,
+   processResponse, response cache store) -> ProcessReceivedMessageWithHandler
+   (write the reply if modified), of the application's own cc.WriteMessage
+   (separate responses) and of the housekeeping sweep of the response cache.
+   One [step] is one critical section of the per-message-ID mutex together with
+   the lock-free prologue (own-ID check) and epilogue (write) of the same copy;
+   Dedup/Conc.v splits it into its atomic actions and interleaves them.
+   Time: each cache entry carries the milliseconds of validity it has left;
+   [Age d] lets d ms pass. *)
 From Coq Require Import ZArith List Bool.
-From GoCoap Require Import Base.Bytes NoResp.Model.
+From GoCoap Require Import Base.Bytes NoResp.Model Gen.DedupConsts.
 Import ListNotations.
 Open Scope Z_scope.
 
 Definition CON := 0. Definition NON := 1. Definition ACK := 2. Definition RST := 3.
-Definition LIFETIME : Z := 247000.   (* ExchangeLifetime in ms; regenerated constant, see Gen/Timing.v *)
+(* validity of a cached reply in ms: udp/client.ExchangeLifetime (nanoseconds, generated from the live constant) *)
+Definition LIFETIME : Z := ExchangeLifetime / 1000000.
 
 Definition opts_t := list (Z * list Z).
 
@@ -20,13 +24,24 @@ Record wire := W { w_typ : Z; w_code : Z; w_mid : Z; w_tok : list Z; w_opts : op
 
 (* what the application handler does with a request *)
 Inductive behaviour :=
-| BNone                                           (* returns without touching the response *)
-| BResp (code : Z) (opts : opts_t) (pay : list Z) (* w.SetResponse(code, TextPlain, body, opts...) *).
+| BNone                                           (* returns without touching the response; a separate
+                                                     response, if any, is a later [Send] *)
+| BResp (code : Z) (opts : opts_t) (pay : list Z) (* w.SetResponse(code, TextPlain, body, opts...) *)
+| BMsg (code : Z) (tok : list Z) (opts : opts_t) (pay : list Z)
+                                                  (* m := cc.AcquireMessage; m.SetCode/SetToken/ResetOptionsTo/SetBody;
+                                                     w.SetMessage(m): the response message is replaced *)
+| BRst.                                           (* w.Message().SetType(message.Reset) *)
 
+(* [Req] is a message that is not an empty confirmable one (those are [Ping]) and that the request
+   monitor lets through (otherwise [Drop]) *)
 Inductive ev :=
 | Req (typ mid : Z) (tok : list Z) (code : Z) (reqopts : opts_t) (b : behaviour)
 | Age (ms : Z)
-| Tick.
+| Tick
+| Drop (typ mid : Z)                              (* Process: the request monitor answers drop = true *)
+| Ping (mid : Z)                                  (* Process: handleSpecialMessages -> sendPong *)
+| Send (typ : Z) (tok : list Z) (code : Z) (opts : opts_t) (pay : list Z).
+                                                  (* the application calls cc.WriteMessage (separate response) *)
 
 Record entry := { e_reply : wire; e_left : Z }.
 Record st := { cache : list (Z * entry); own : Z (* uint32 message-ID counter *) }.
@@ -80,47 +95,112 @@ Fixpoint set_cf (o : opts_t) : opts_t :=
                    else (12, []) :: (i, v) :: r
   end.
 
-(* the response the handler leaves in the writer: None = unmodified *)
-Definition handler_result (reqopts : opts_t) (b : behaviour) : option (Z * opts_t * list Z) :=
+(* the response message the handler leaves in the writer (None = not modified): is its type Reset,
+   its code, token, options and payload *)
+Record hres := { h_rst : bool; h_code : Z; h_tok : list Z; h_opts : opts_t; h_pay : list Z }.
+
+Definition handler_result (tok : list Z) (reqopts : opts_t) (b : behaviour) : option hres :=
   match b with
   | BNone => None
   | BResp code opts pay =>
       if rw_refuses reqopts code then None           (* SetResponse returned ErrMessageNotInterested *)
-      else Some (code, match pay with [] => opts | _ => set_cf opts end, pay)
+      else Some {| h_rst := false; h_code := code; h_tok := tok;
+                   h_opts := match pay with [] => opts | _ => set_cf opts end; h_pay := pay |}
+  | BMsg code tok' opts pay =>                       (* no No-Response check on this path *)
+      Some {| h_rst := false; h_code := code; h_tok := tok'; h_opts := opts; h_pay := pay |}
+  | BRst => Some {| h_rst := true; h_code := 0; h_tok := tok; h_opts := []; h_pay := [] |}
+  end.
+
+(* isPongOrResetResponse (the message is modified here) *)
+Definition is_special (h : hres) : bool := h_rst h || (h_code h =? 0).
+
+(* behaviours whose reply, if any, is an ordinary response: not of type Reset, code not Empty *)
+Definition plain_beh (b : behaviour) : bool :=
+  match b with
+  | BNone => true
+  | BResp c _ _ | BMsg c _ _ _ => negb (c =? 0)
+  | BRst => false
   end.
 
 Definition is_cacheable_typ (typ : Z) : bool := (typ =? CON) || (typ =? NON).
 
+Definition bare_ack (mid : Z) : wire := {| w_typ := ACK; w_code := 0; w_mid := mid; w_tok := []; w_opts := []; w_pay := [] |}.
+
+(* ---- the pieces of one copy's processing, in program order ---- *)
+
+(* Process: checkMyMessageID *)
+Definition req_check (typ mid own : Z) : Z := if typ =? CON then check_my_mid 4 mid own else own.
+
+(* handleReq: checkResponseCache *)
+Definition req_lookup (typ mid : Z) (c : list (Z * entry)) : option entry :=
+  if is_cacheable_typ typ then cache_load c mid else None.
+(* ... a stored reply is re-addressed to the copy *)
+Definition retarget (typ mid : Z) (r : wire) : wire :=
+  {| w_typ := if typ =? CON then ACK else NON; w_code := w_code r; w_mid := mid;
+     w_tok := w_tok r; w_opts := w_opts r; w_pay := w_pay r |}.
+
+(* handleReq: handler + processResponse up to the cache store: the own counter afterwards, the
+   message to write (None = not modified, nothing is written), whether it is stored *)
+Record hdl := { hd_own : Z; hd_reply : option wire; hd_store : bool }.
+
+Definition req_handle (typ mid : Z) (tok : list Z) (reqopts : opts_t) (b : behaviour) (own1 : Z) : hdl :=
+  match handler_result tok reqopts b with
+  | None =>
+      if typ =? CON then {| hd_own := own1; hd_reply := Some (bare_ack mid); hd_store := true |}
+      else {| hd_own := own1; hd_reply := None; hd_store := false |}
+  | Some h =>
+      if is_special h then
+        (* Reset / Empty reply: matched to a confirmable request, an own message ID otherwise *)
+        if typ =? CON then
+          {| hd_own := own1;
+             hd_reply := Some {| w_typ := ACK; w_code := h_code h; w_mid := mid; w_tok := h_tok h; w_opts := h_opts h; w_pay := h_pay h |};
+             hd_store := true |}
+        else
+          let own2 := u32 (own1 + 1) in
+          {| hd_own := own2;
+             hd_reply := Some {| w_typ := if h_rst h then RST else NON; w_code := h_code h; w_mid := u16 own2;
+                                 w_tok := h_tok h; w_opts := h_opts h; w_pay := h_pay h |};
+             hd_store := typ =? NON |}
+      else
+        (* processResponse takes a fresh own message ID first (cc.GetMessageID()) and then, for a
+           confirmable request, overrides it with the request's ID *)
+        let own2 := u32 (own1 + 1) in
+        if typ =? CON then
+          {| hd_own := own2;
+             hd_reply := Some {| w_typ := ACK; w_code := h_code h; w_mid := mid; w_tok := h_tok h; w_opts := h_opts h; w_pay := h_pay h |};
+             hd_store := true |}
+        else
+          {| hd_own := own2;
+             hd_reply := Some {| w_typ := CON; w_code := h_code h; w_mid := u16 own2; w_tok := h_tok h; w_opts := h_opts h; w_pay := h_pay h |};
+             hd_store := typ =? NON |}
+  end.
+
+(* handleReq: addResponseToCache *)
+Definition store_reply (mid : Z) (store : bool) (r : option wire) (c : list (Z * entry)) : list (Z * entry) :=
+  if store then match r with Some w => cache_store c mid w | None => c end else c.
+Definition req_store (mid : Z) (h : hdl) (c : list (Z * entry)) : list (Z * entry) :=
+  store_reply mid (hd_store h) (hd_reply h) c.
+
+(* ProcessReceivedMessageWithHandler: writeMessageAsync evaluates cc.GetMessageID() for UpsertMessageID
+   even when the ID is already set; nothing is written (or drawn) for an unmodified message *)
+Definition own_after_write (r : option wire) (own : Z) : Z :=
+  match r with Some _ => u32 (own + 1) | None => own end.
+
+Definition obs_of_reply (called : bool) (r : option wire) : obs :=
+  {| o_called := called; o_out := match r with Some w => [w] | None => [] end |}.
+
 Definition step (s : st) (e : ev) : st * obs :=
   match e with
   | Req typ mid tok code reqopts b =>
-      let own1 := if typ =? CON then check_my_mid 4 mid (own s) else own s in
-      match (if is_cacheable_typ typ then cache_load (cache s) mid else None) with
+      let own1 := req_check typ mid (own s) in
+      match req_lookup typ mid (cache s) with
       | Some en =>
-          let r := e_reply en in
-          let r' := {| w_typ := if typ =? CON then ACK else NON; w_code := w_code r; w_mid := mid;
-                       w_tok := w_tok r; w_opts := w_opts r; w_pay := w_pay r |} in
-          (* writeMessageAsync evaluates cc.GetMessageID() for UpsertMessageID even when the ID is already set *)
-          ({| cache := cache s; own := u32 (own1 + 1) |}, {| o_called := false; o_out := [r'] |})
+          let r' := retarget typ mid (e_reply en) in
+          ({| cache := cache s; own := own_after_write (Some r') own1 |}, obs_of_reply false (Some r'))
       | None =>
-          match handler_result reqopts b with
-          | None =>
-              if typ =? CON then
-                let r := {| w_typ := ACK; w_code := 0; w_mid := mid; w_tok := []; w_opts := []; w_pay := [] |} in
-                ({| cache := cache_store (cache s) mid r; own := u32 (own1 + 1) |}, {| o_called := true; o_out := [r] |})
-              else ({| cache := cache s; own := own1 |}, {| o_called := true; o_out := [] |})
-          | Some (rc, ro, rp) =>
-              (* processResponse takes a fresh own message ID first (cc.GetMessageID()) and then, for a
-                 confirmable request, overrides it with the request's ID *)
-              let own2 := u32 (own1 + 1) in
-              if typ =? CON then
-                let r := {| w_typ := ACK; w_code := rc; w_mid := mid; w_tok := tok; w_opts := ro; w_pay := rp |} in
-                ({| cache := cache_store (cache s) mid r; own := u32 (own2 + 1) |}, {| o_called := true; o_out := [r] |})
-              else
-                let r := {| w_typ := CON; w_code := rc; w_mid := u16 own2; w_tok := tok; w_opts := ro; w_pay := rp |} in
-                let c := if typ =? NON then cache_store (cache s) mid r else cache s in
-                ({| cache := c; own := u32 (own2 + 1) |}, {| o_called := true; o_out := [r] |})
-          end
+          let h := req_handle typ mid tok reqopts b own1 in
+          ({| cache := req_store mid h (cache s); own := own_after_write (hd_reply h) (hd_own h) |},
+           obs_of_reply true (hd_reply h))
       end
   | Age ms =>
       ({| cache := map (fun '(k, en) => (k, {| e_reply := e_reply en; e_left := e_left en - ms |})) (cache s); own := own s |},
@@ -128,6 +208,21 @@ Definition step (s : st) (e : ev) : st * obs :=
   | Tick =>
       ({| cache := filter (fun '(_, en) => negb (expired en)) (cache s); own := own s |},
        {| o_called := false; o_out := [] |})
+  | Drop typ mid =>
+      (* the own-ID check comes before the request monitor *)
+      ({| cache := cache s; own := req_check typ mid (own s) |}, {| o_called := false; o_out := [] |})
+  | Ping mid =>
+      (* sendPong: Reset with the ping's ID; writeMessageAsync draws one ID; the handler never sees it *)
+      let own1 := req_check CON mid (own s) in
+      ({| cache := cache s; own := u32 (own1 + 1) |},
+       {| o_called := false; o_out := [{| w_typ := RST; w_code := 0; w_mid := mid; w_tok := []; w_opts := []; w_pay := [] |}] |})
+  | Send typ tok code opts pay =>
+      (* writeMessage: UpsertMessageID(cc.GetMessageID()) sets the ID; a non-confirmable message goes through
+         writeMessageAsync, which draws (and discards) one more; a confirmable one waits for its
+         acknowledgement, which the peer is assumed to send *)
+      let own1 := u32 (own s + 1) in
+      ({| cache := cache s; own := if typ =? CON then own1 else u32 (own1 + 1) |},
+       {| o_called := false; o_out := [{| w_typ := typ; w_code := code; w_mid := u16 own1; w_tok := tok; w_opts := opts; w_pay := pay |}] |})
   end.
 
 Fixpoint run (s : st) (evs : list ev) : st * list obs :=
